@@ -211,7 +211,7 @@ def run(ctx: Ctx):
     k = 0
     # every member of each priority class stands for its class in rotation
     MEMBERS = {"readCounters": ("readCounters", "nop", "readAndClearCounters", "getValue"), "getNodeId": ("getNodeId",),
-               "sendUnicast": ("sendUnicast", "sendMulticast", "sendBroadcast")}
+               "sendUnicast": ("sendUnicast", "sendMulticast", "sendBroadcast", "setSourceRoute", "setExtendedTimeout")}
     for calls in itertools.product(CLASS_CMDS, repeat=3):
         for reacts in itertools.product(REACTIONS, repeat=R):
             k += 1
@@ -258,7 +258,7 @@ def run(ctx: Ctx):
     ctx.exhaustive = False
     ctx.assumptions += ["fake gateway (send_data completes, fails or stays pending as scripted); the harness plays a conforming NCP at frame level",
                         "response payloads are encoded with the version's own schema (codec fidelity is C07)",
-                        "priority classes of the property: {nop, readCounters, readAndClearCounters, getValue(free buffers): the watchdog's keep-alive} > ordinary > {sendUnicast, sendMulticast, sendBroadcast}",
+                        "priority classes of the property: {nop, readCounters, readAndClearCounters, getValue(free buffers): the watchdog's keep-alive} > ordinary > {sendUnicast, sendMulticast, sendBroadcast and the set-up commands of a send: setSourceRoute, setExtendedTimeout}",
                         "a misnumbered reply never names the pending request of the same command; a reply hitting a stale registration may be dropped or handed to the callbacks once"]
 
 
